@@ -403,6 +403,23 @@ pub fn gen(prop: &str, rng: &mut Rng, quick: bool, st: &mut Stats) -> Option<Vec
                 c.push(format!("chk_startpos {} {p:x} - {}", if k % 2 == 0 { "sync" } else { "async" }, ops.join(";")));
                 st.bump("start_position_near_limits");
             }
+            // archives of other writers (tiles sharing a start offset, unordered data, nested leaves) written at P
+            for k in 0..(if quick { 8 } else { 40 }) {
+                let mut o = foreign_opts(rng, k + 2, true);
+                o.n = o.n.min(60);
+                let f = gen_foreign(rng, &o, st);
+                c.push(format!("chk_startpos_foreign {} {:x} {}", if k % 2 == 0 { "sync" } else { "async" }, [0u64, 1, 127, 4096, 700][k % 5], hex_bytes(&f.bytes)));
+                st.bump("start_position_foreign_archives");
+            }
+            // an archive that was opened, given another internal compression, and written at P
+            for (k, (c1, c2)) in [("gzip", "zstd"), ("none", "brotli"), ("zstd", "none"), ("brotli", "gzip")].iter().enumerate() {
+                let mode = if k % 2 == 0 { "sync" } else { "async" };
+                let m = &mode[..1];
+                let ops = small_logical_ops(rng, 12, st, None);
+                c.push(format!("chk_startpos {mode} {:x} - c:{c1};{ops};c:{c1};s:{m}:{m};c:{c2}", [0u64, 9, 300, 127][k]));
+                c.push(format!("chk_startpos {mode} {:x} - c:{c1};{ops};c:{c1};s:{m}:{m};c:{c2};a:77:0102", [5u64, 0, 127, 4096][k]));
+                st.bump("start_position_after_changing_the_compression_of_an_opened_archive");
+            }
             // starting positions taken from the archive's own geometry (its length - 127, its offsets, ...)
             for (k, n) in [0usize, 1, 5, 60].iter().enumerate() {
                 let mode = if k % 2 == 0 { "sync" } else { "async" };
@@ -513,6 +530,46 @@ pub fn gen(prop: &str, rng: &mut Rng, quick: bool, st: &mut Stats) -> Option<Vec
             for (_, bytes, _, valid) in odd_archives(rng) {
                 if valid {
                     arch.push(bytes);
+                }
+            }
+            // archives of another writer (tiles sharing a start offset with different lengths, unordered data)
+            for k in 0..4 {
+                let mut o = foreign_opts(rng, k + 1, true);
+                o.n = 12 + 9 * k;
+                o.icomp = [1u8, 2, 4, 3][k];
+                arch.push(gen_foreign(rng, &o, st).bytes);
+            }
+            // told lengths that are too short for what the directory holds (root window, leaf pointers), without a codec
+            {
+                let t = |id: u64, run: u32, off: u64, len: u32| spec::SEntry { id, off, len, run };
+                let data: Vec<u8> = rng.bytes(300);
+                let root_tiles: Vec<spec::SEntry> = (0..20u64).map(|i| t(3 * i + 1, 1, 7 * i, 7)).collect();
+                let full = raw_archive(1, &root_tiles, &[], &data);
+                for cut in [1u64, 2, 3, 9, 40] {
+                    let mut b = full.clone();
+                    let mut h = spec::decode_header(&b).expect("header");
+                    h.root_len -= cut.min(h.root_len - 1);
+                    b[0..127].copy_from_slice(&spec::encode_header(&h));
+                    for mode in ["sync", "async"] {
+                        c.push(format!("chk_windows_told {mode} {}", hex_bytes(&b)));
+                    }
+                    st.bump("told_root_length_too_short");
+                }
+                let l1 = spec::encode_dir(&(0..15u64).map(|i| t(2 * i, 1, 5 * i, 5)).collect::<Vec<_>>());
+                let l2 = spec::encode_dir(&(0..15u64).map(|i| t(100 + 2 * i, 1, 75 + 5 * i, 5)).collect::<Vec<_>>());
+                let mut ls = l1.clone();
+                ls.extend_from_slice(&l2);
+                for cut in [1u32, 2, 7] {
+                    // the second pointer's told length is short: reading on would run out of the leaf section into the tile data
+                    let ptrs = [spec::SEntry { id: 0, off: 0, len: l1.len() as u32, run: 0 }, spec::SEntry { id: 100, off: l1.len() as u64, len: l2.len() as u32 - cut, run: 0 }];
+                    let mut b = raw_archive(1, &ptrs, &ls, &data);
+                    let mut h = spec::decode_header(&b).expect("header");
+                    h.leaf_len -= u64::from(cut);
+                    b[0..127].copy_from_slice(&spec::encode_header(&h));
+                    for mode in ["sync", "async"] {
+                        c.push(format!("chk_windows_told {mode} {}", hex_bytes(&b)));
+                    }
+                    st.bump("told_leaf_length_too_short");
                 }
             }
             // archives holding tile 0 (first in the list, so that the range ..0 meets one)
@@ -950,12 +1007,20 @@ pub fn run_chk(toks: &[&str]) -> Option<String> {
             guard_chk(|| chk_startpos(mode, p, &pre, ops))
         }
         ["chk_startpos_rel", mode, ops] => guard_chk(|| chk_startpos_rel(mode, ops)),
+        ["chk_startpos_foreign", mode, p, b] => {
+            let (p, b) = (unhex_u64(p), unhex_bytes(b));
+            guard_chk(|| chk_startpos_foreign(mode, p, &b))
+        }
         ["chk_startpos_sparse", mode, p, n, g] => {
             let (p, n, g) = (unhex_u64(p), unhex_u64(n), unhex_u64(g));
             guard_chk(|| chk_startpos_sparse(mode, p, n, g))
         }
         ["chk_torn", mode, ops] => guard_chk(|| chk_torn(mode, ops)),
         ["chk_torn_giant", mode] => guard_chk(|| chk_torn_giant(mode)),
+        ["chk_windows_told", mode, b] => {
+            let b = unhex_bytes(b);
+            guard_chk(|| chk_windows_told(mode, &b))
+        }
         ["chk_lazy", mode, rg, b] => {
             let (rg, b) = (parse_range(rg), unhex_bytes(b));
             guard_chk(|| chk_lazy(mode, rg, &b))
